@@ -26,7 +26,7 @@
   * Long strings are expensive for the kernel (string equality is quadratic in the length), which is
     why the generator cuts the one long text into pieces and why the long callback tokens of
     `csi_dispatch` are resolved once (`csiUnhandled_tie`) instead of in every case of `csi_tie`.
-  * A, B and C of the task are all tied; nothing is skipped.
+  * What the tables hold but no theorem reads, and what the translator does not look at at all, is listed in DESIGN.md 10.7 (audit); `Tie2.lean` adds tripwires for the extended-colour arms of `sgr`.
 -/
 import Vt.Model.Perform
 import Vt.Gen.Tables
